@@ -505,7 +505,7 @@ def run(ctx):
         judge(if_parts(nyb_if)[1])
     swaps = []
     for x in walk(loop_body(main_loop)):
-        if x.get('kind') == 'IfStmt' and nf(if_parts(x)[0]) in ('(big_endian != host_big_endian)', '(host_big_endian != big_endian)', '(big_endian != 0)', 'big_endian'):
+        if x.get('kind') == 'IfStmt' and nf(if_parts(x)[0]) in ('(big_endian != host_big_endian)', '(host_big_endian != big_endian)', '(big_endian != 0)', '(0 != big_endian)', 'big_endian'):
             c = [y for y in walk(if_parts(x)[1]) if y.get('kind') == 'CallExpr' and (call_name(y) or '').startswith('bswap')]
             blk = enclosing(x, ('CompoundStmt',))
             sz = [int_value(call_args(s0)[1]) for s0 in [strip(s_) for s_ in kids(blk)] if s0.get('kind') == 'CXXMemberCallExpr' and call_name(s0) == 'append']
